@@ -84,6 +84,7 @@ def _history_cases(tier: str):
         ("jpsi_sigmabar_sigma", "helicity", ["@parent_hel", "@plain,parent_hel", "@no_child_hel,plain,parent_hel"]),
         ("jpsi_gamma_pi0_pi0", "canonical-helicity", ["@stable", "@fail,stable", "@plain,fail,fail,stable"]),  # a formulate() that RAISES (bad configuration), then a good one  # naming flags decide which chains share a coefficient
         ("jpsi_pi0_pip_pim", "helicity", ["axis", "plain,axis"]),  # three topologies, final-state id 0: names m_01 / m_1 tie under natural sorting
+        ("chic2_gamma_gamma", "helicity", ["plain", "couplings,plain", "parent_hel,plain"]),  # identical particles with spin: one amplitude per assignment of projections (label-keyed dicts)
         # every variant of the lineshape builders in ONE process: a module-level cache or constant that one variant mutates shows in the next
         ("jpsi_gamma_pi0_pi0", "canonical-helicity", ["bw", "bwsff,bw", "bwff,bwedw,nodynff,bw"]),
         ("jpsi_gamma_pi0_pi0", "canonical-helicity", ["bwff+", "bw,bwsff,bwff+", "nodynff,bwedw,bwff+"]),
